@@ -447,6 +447,13 @@ pub fn make_run(seed: u64, run: u64, menu: &[Box<dyn TyObj>]) -> RunSpec {
             ti = cands[p.below(cands.len() as u64) as usize];
         }
     }
+    // one census in six hundred is a soak: one to two million calls on a small type, evaluated window by window
+    // (behaviour that changes after very many calls)
+    let soak = mode == 5 && p.chance(1, 600);
+    if soak {
+        let cands: Vec<usize> = (0..menu.len()).filter(|&i| menu[i].bytes() <= 2).collect();
+        ti = cands[p.below(cands.len() as u64) as usize];
+    }
     if mode == 7 {
         // the constructor's division is the only multi-digit division behind C20; at these widths a block measurement
         // costs a few hundred calls, so many range sizes can be tried
@@ -487,7 +494,20 @@ pub fn make_run(seed: u64, run: u64, menu: &[Box<dyn TyObj>]) -> RunSpec {
     if mode == 7 {
         ops.push(div_hunt_op(&mut p, &sw, w, db, signed));
     } else if mode == 5 {
-        ops.push(census_op(&mut p, &sw, w, db, signed));
+        let mut op = census_op(&mut p, &sw, w, db, signed);
+        if soak {
+            if let OpKind::Census { low, high, inclusive, samples, .. } = &mut op.kind {
+                // a small range (windows of 128 r calls stay short)
+                let r = 2 + p.below(15);
+                let (l, h) = place(&mut p, w, db, signed, &Some(refint::from_u64(r, w)));
+                let (l, h, inc) = api_bounds(&mut p, w, signed, l, h);
+                *low = l;
+                *high = h;
+                *inclusive = inc;
+                *samples = (1_000_000 + p.below(1_000_000)) as u32;
+            }
+        }
+        ops.push(op);
     } else if mode == 4 {
         ops.push(span_op(&mut p, &sw, w, db, signed));
         if p.chance(1, 2) {
